@@ -43,20 +43,20 @@ pub struct Case {
     pub ops: Vec<Op>,
 }
 
-fn name(i: u8) -> &'static str {
+pub(crate) fn name(i: u8) -> &'static str {
     NAMES[i as usize % NAMES.len()]
 }
 
 #[derive(Debug, Clone, PartialEq, Eq)]
-struct Designation {
-    channel: ChannelView,
-    cert: u8,
-    creds: Option<String>,
-    exact: bool,
+pub(crate) struct Designation {
+    pub channel: ChannelView,
+    pub cert: u8,
+    pub creds: Option<String>,
+    pub exact: bool,
 }
 
 /// Reference routing table
-fn designations(cfg: &HostCfg, reverse_proxy: bool, sni: &str) -> Vec<Designation> {
+pub(crate) fn designations(cfg: &HostCfg, reverse_proxy: bool, sni: &str) -> Vec<Designation> {
     let mut v = vec![];
     for (n, c, _) in &cfg.main {
         if name(*n) == sni {
@@ -97,7 +97,7 @@ fn designations(cfg: &HostCfg, reverse_proxy: bool, sni: &str) -> Vec<Designatio
     v
 }
 
-fn proto_of(alpn: &[u8]) -> Option<Proto> {
+pub(crate) fn proto_of(alpn: &[u8]) -> Option<Proto> {
     match alpn {
         b"h3" => Some(Proto::Http3),
         b"h2" => Some(Proto::Http2),
@@ -106,7 +106,7 @@ fn proto_of(alpn: &[u8]) -> Option<Proto> {
     }
 }
 
-fn rank(p: Proto) -> u8 {
+pub(crate) fn rank(p: Proto) -> u8 {
     match p {
         Proto::Http1 => 1,
         Proto::Http2 => 2,
@@ -115,11 +115,15 @@ fn rank(p: Proto) -> u8 {
 }
 
 /// Ok(protocol) or Err(()) = must be refused
-fn expected_protocol(c: &Case, channel: ChannelView, alpn: &[Vec<u8>]) -> Result<Proto, ()> {
+pub(crate) fn expected_protocol(c: &Case, channel: ChannelView, alpn: &[Vec<u8>]) -> Result<Proto, ()> {
+    expected_protocol_flags(c.h1, c.h2, c.quic, channel, alpn)
+}
+
+pub(crate) fn expected_protocol_flags(h1: bool, h2: bool, quic: bool, channel: ChannelView, alpn: &[Vec<u8>]) -> Result<Proto, ()> {
     let enabled = |p: Proto| match p {
-        Proto::Http1 => c.h1,
-        Proto::Http2 => c.h2,
-        Proto::Http3 => c.quic,
+        Proto::Http1 => h1,
+        Proto::Http2 => h2,
+        Proto::Http3 => quic,
     };
     let permitted = |p: Proto| channel != ChannelView::ReverseProxy || p != Proto::Http2;
     let offered: Vec<Proto> = alpn.iter().filter_map(|a| proto_of(a)).collect();
@@ -133,7 +137,7 @@ fn expected_protocol(c: &Case, channel: ChannelView, alpn: &[Vec<u8>]) -> Result
         .ok_or(())
 }
 
-fn cfg_valid(cfg: &HostCfg) -> bool {
+pub(crate) fn cfg_valid(cfg: &HostCfg) -> bool {
     if cfg.main.is_empty() {
         return false;
     }
@@ -147,7 +151,7 @@ fn cfg_valid(cfg: &HostCfg) -> bool {
         .all(|n| seen.insert(name(n)))
 }
 
-fn apply_cfg(spec: &mut CoreSpec, cfg: &HostCfg) {
+pub(crate) fn apply_cfg(spec: &mut CoreSpec, cfg: &HostCfg) {
     spec.main_hosts = cfg
         .main
         .iter()
@@ -198,7 +202,7 @@ fn hosts_toml(cfg: &HostCfg, sabotage: Option<u8>, garbage: &str) -> String {
     s
 }
 
-fn leaf_of(cert: u8) -> Vec<u8> {
+pub(crate) fn leaf_of(cert: u8) -> Vec<u8> {
     use std::sync::OnceLock;
     static CACHE: OnceLock<Vec<Vec<u8>>> = OnceLock::new();
     CACHE
@@ -306,7 +310,7 @@ fn judge_select(c: &Case, cfg: &HostCfg, sni: &str, alpn: &[Vec<u8>], got: &Resu
     }
 }
 
-fn sni_strategy() -> BoxedStrategy<String> {
+pub(crate) fn sni_strategy() -> BoxedStrategy<String> {
     prop_oneof![
         10 => (0u8..NAMES.len() as u8).prop_map(|i| name(i).to_string()),
         3 => ((0u8..NAMES.len() as u8), prop::sample::select(vec!["a", "b", "ping", "creds", "x"]))
@@ -319,7 +323,7 @@ fn sni_strategy() -> BoxedStrategy<String> {
     .boxed()
 }
 
-fn alpn_strategy() -> BoxedStrategy<Vec<Vec<u8>>> {
+pub(crate) fn alpn_strategy() -> BoxedStrategy<Vec<Vec<u8>>> {
     let entry = prop_oneof![
         3 => Just(b"h3".to_vec()),
         3 => Just(b"h2".to_vec()),
@@ -332,7 +336,7 @@ fn alpn_strategy() -> BoxedStrategy<Vec<Vec<u8>>> {
     prop::collection::vec(entry, 0..=4).boxed()
 }
 
-fn cfg_strategy() -> BoxedStrategy<HostCfg> {
+pub(crate) fn cfg_strategy() -> BoxedStrategy<HostCfg> {
     // a shuffled selection of distinct names split over the four classes
     (
         Just((0..NAMES.len() as u8).collect::<Vec<u8>>()).prop_shuffle(),
@@ -610,6 +614,7 @@ pub fn run(ctx: &mut Ctx) {
     ctx.run_suite(&SelectSuite { with_reloads: false });
     ctx.run_suite(&SelectSuite { with_reloads: true });
     reload_race(ctx);
+    ctx.run_suite(&super::frontdoor::FrontDoorSuite);
     ctx.assume("alternative SNIs equal to a configured host name are not generated (validate() does not forbid them and their routing would be ambiguous by configuration)");
     ctx.assume("select() is transport-agnostic: an h3 result on TCP is turned into a refusal by the caller (on_new_tls_connection), which the full-stack scenarios observe");
     ctx.assume("reload interleavings with real threads are sampled, not owned");
@@ -620,6 +625,7 @@ pub fn replay(ctx: &mut Ctx, suite: &str, case: &Value) -> bool {
     match suite {
         "select" => ctx.replay_suite(&SelectSuite { with_reloads: false }, case),
         "select-with-reloads" => ctx.replay_suite(&SelectSuite { with_reloads: true }, case),
+        "tls-front-door" => ctx.replay_suite(&super::frontdoor::FrontDoorSuite, case),
         _ => false,
     }
 }
